@@ -67,7 +67,8 @@ TraceStep ==
            skip == ev.i # 1 /\ bad IN
        IF skip THEN UNCHANGED <<st, bad>> /\ Count(5)
        ELSE
-       LET match == {o \in Outcomes(Impl, pre, ev.call) : Matches(o, ev)}
+       LET call == IF Impl = "osfs" THEN ev.call ELSE CleanCall(ev.call)
+           match == {o \in Outcomes(Impl, pre, call) : Matches(o, ev)}
            strict == {o \in match : o.kf = ""} IN
        /\ Count(4)
        /\ IF strict # {} THEN
